@@ -1,11 +1,11 @@
 /*@unit {
  'kind': 'proof', 'mode': 'legacy',
  'functions': ['print_s'],
- 'replace': ['vc_strlen'],
+ 'replace': ['vc_strlen', 'vc_strnlen'],
  'clauses': '%s (and the one-character string of %c): for every array, flag -, width >= 0, precision >= 0 or none: bytes are written up to the first null character or the precision, whichever comes first; left/right space padding to the width; return value == ISO length == number of callback calls; j-th character of every segment == the ISO one (arbitrary segment, j); the array is an exact-size object (first null + 1 bytes, or exactly `precision` bytes when unterminated), every read is checked against it',
  'include': ['igris/util'],
  'inject': [
-  {'file': 'igris/util/printf_impl.c', 'func': 'print_s', 'at': 'after', 'anchor': 'len = (int)strlen(str);', 'ghost': 'g_r = len;'},
+  {'file': 'igris/util/printf_impl.c', 'func': 'print_s', 'at': 'before', 'anchor': 'space_count = width > len', 'ghost': 'g_r = len;'},
   {'file': 'igris/util/printf_impl.c', 'func': 'print_s', 'at': 'before', 'anchor': 'for (; space_count; --space_count)',
    'ghost': 'g_seg = 0; g_pos = 0; g_c0 = g_count; g_n0 = space_count; g_g0 = g_got;'},
   {'file': 'igris/util/printf_impl.c', 'func': 'print_s', 'loop': 0, 'expect': 'for (; space_count; --space_count)',
@@ -37,7 +37,7 @@
                  'ISO 7.21.6.1p8 (s): the array contains a null character unless a precision is given that does not exceed its size',
                  'the index of the first null character fits int (print_s keeps strlen in an int; the int return value cannot report more anyway)',
                  'no null character before the declared first one: used at one index only, the prophecy `guess` of what strlen returns (assertions are made for guess == returned value, which exists for every real run)'],
- 'trusted': ['segment-wise equality implies equality of the concatenated texts (see print_i)'],
+ 'trusted': ['contracts/c06_strnlen_contract.h restates what units/C08/strnlen.c proves about the real strnlen (only used after the repair of C06_s_prec_strlen)', 'segment-wise equality implies equality of the concatenated texts (see print_i)'],
  'canaries': 2,
  'witness': {'unwind': 10},
 } @*/
@@ -45,15 +45,19 @@
 #include "c06_env.h"
 #include "c06_iso_printf.h"
 #include "c08_string.h" /* strlen -> vc_strlen with the contract proved by units/C08/strlen.c */
+#include "c06_strnlen_contract.h" /* strnlen: only reached once the proposed repair of C06_s_prec_strlen is applied */
 #ifdef WITNESS_MODE     /* concretisation / native run: the replaced callee is the real shim code */
 #include "compat/libc/string/strlen.c"
+#include "compat/libc/string/strnlen.c"
 #endif
 long long g_c0, g_n0, g_c1, g_n1, g_c2, g_n2;
 int g_g0, g_g1, g_g2;
 const char *g_s1;
 long long g_l0, g_l3;
-long long g_r; /* what strlen returned inside print_s */
+long long g_r; /* the number of bytes print_s decided to write (strlen, clamped by the precision) */
 #include "igris/util/printf_impl.c"
+/* keeps the symbol vc_strnlen in the program while the unrepaired print_s does not call it (never called itself) */
+size_t c06_keep_strnlen(const char *s, size_t n) { return vc_strnlen(s, n); }
 
 void harness(void)
 {
@@ -91,6 +95,8 @@ void harness(void)
     __CPROVER_assume(!(guess < (term ? Ls : size)) || s[guess] != 0);
     g_strlen_L = Ls;   /* witness of the terminator for strlen's contract (none exists when !term) */
     g_strlen_k = guess;
+    g_strnlen_L = term ? Ls : size; /* no terminator: any value >= the precision */
+    g_strnlen_k = guess;
 
     struct iso_layout L = iso_str_layout(C06_ISO_FLAGS(ops), width, s, (long long)nbytes);
     long long want = iso_layout_len(&L);
@@ -103,9 +109,12 @@ void harness(void)
     int ret = print_s(iso_recorder, 0, s, width, max_len, ops);
     long long l4 = g_seg == 4 ? g_pos : 0;
 
-    if (g_r == (long long)guess) { /* the run in which the prophecy is right: exists for every real input */
+    /* The "no null character before Ls" precondition is only available at index `guess`.  The scan inside print_s
+       (strlen, clamped to the precision) stopped at r >= g_r; if g_r is below the precision (or there is none),
+       r == g_r, and the run in which the prophecy guess == g_r is right exists for every real input: there
+       s[g_r] != 0 unless g_r == Ls.  If g_r equals the precision nothing has to be known about r. */
+    if (g_r == (long long)guess || (has_prec && g_r == (long long)max_len)) {
         CANARY("print_s: the run with the right prophecy is reachable");
-        __CPROVER_assert(g_r == (long long)Ls, "print_s: strlen stopped at the first null character");
         __CPROVER_assert(g_l3 == L.nbody, "print_s: bytes written == up to the first null character or the precision, whichever is first");
         __CPROVER_assert(g_l0 == L.lpad && l4 == L.rpad, "print_s: left / right space padding as ISO prescribes ('-' flag, width)");
         __CPROVER_assert(ret == want, "print_s: return value == number of characters ISO C 7.21.6.1 prescribes");
